@@ -118,6 +118,16 @@ def isWeekCode : Str → Bool
 def isMonthYear (s : Str) : Bool :=
   isYearMonth s || isDate s || (isYearMonth (s.take 6) && isWeekCode (s.drop 6))
 
+/-- enumerated MultipleValueString: one or more values delimited by single blanks, each of them an enumeration
+member (`cur` = the characters of the current value, last first) -/
+def memberList (members : List Str) : Str → Str → Bool
+  | [], cur => members.contains cur.reverse
+  | c :: cs, cur =>
+    if c == 32 then members.contains cur.reverse && memberList members cs []
+    else memberList members cs (c :: cur)
+
+def isMemberList (members : List Str) (s : Str) : Bool := memberList members s []
+
 /-- the datatypes of the table, grouped as validate_value groups them -/
 inductive DType
   | int | posInt | dayOfMonth | float | string | char | boolean
